@@ -163,6 +163,13 @@ def _cmp_ybus(ctx, m, o, case):
         ctx.disagreement("Ybus_eq (%s, sizes %s): implementation formula with oracle inverse differs from the observed result by %.3g" % (
             o["eq_type"], o["n"], float(np.max(np.abs(A - impl))) if A.shape == impl.shape else float("nan")), case)
         return
+    # hypothesis of the composition theorem (C28_kron_sequence_is_schur_complement): every pivot met by the bus-by-bus
+    # elimination is non-zero.  An invertible Ybus_ee with a vanishing trailing pivot would need another elimination order:
+    # counted, and the exact elimination (which divides by the pivot) is not compared then.
+    if not m[3]:
+        ctx.count("zero_pivot_in_elimination_order")
+        return
+    ctx.count("pivots_nonzero")
     B = np.array([[cval(x) for x in row] for row in m[1]])
     if o["eq_type"] != "xward":      # the 1e8 diagonal makes the xward reduction ill-conditioned in floating point; exact result still compared loosely
         tol = 1e-7
